@@ -190,13 +190,16 @@ def read_view(result):
     return pages
 
 
-def changer(chk):
+def changer(chk, mini=False):
+    """mini: one exhaustive configuration, a spread of its behaviours, no simulation (used by harness.selftest)"""
     from ..core import bindings
     ev = chk.ev
     beh = []
     cfgs = ["MC_Changer_iscsi.cfg", "MC_Changer_sgio.cfg", "MC_ChangerS_iscsi.cfg", "MC_ChangerS_sgio.cfg"]
     if not chk.quick:
         cfgs += ["MC_Changer2_iscsi.cfg", "MC_Changer2_sgio.cfg"]
+    if mini:
+        cfgs = cfgs[:2]
     for cfg in cfgs:
         r = tlc.run("Changer", cfg, workers=8, timeout=1800, coverage=cfg.startswith("MC_Changer_"), name="c13chg")
         if not r.ok:
@@ -213,12 +216,14 @@ def changer(chk):
             b = re_ + random.Random(chk.seed).sample(b, 600 - len(re_))
         beh += b
         r.prints = []
-    for cfg in ("Sim_Changer_iscsi.cfg", "Sim_Changer_sgio.cfg"):
+    for cfg in (() if mini else ("Sim_Changer_iscsi.cfg", "Sim_Changer_sgio.cfg")):
         rs = tlc.run("Changer", cfg, workers=1, timeout=1800, name="c13chgsim", simulate="num=%d" % (60 if chk.quick else 4000),
                      extra=["-depth", "40", "-seed", str(chk.seed + 17)])
         if rs.violated:
             raise tlc.TLCFailure("Changer.tla (simulation) violated %s" % rs.violated)
         beh += [v for t, v in rs.prints if t == "CHANGER"]
+    if mini:
+        beh = beh[::max(1, len(beh) // 160)]
     fs, fi = bindings.install(True, True)
     d = bindings.shm_dir("c13c")
     path = os.path.join(d, "sg1")
